@@ -297,7 +297,16 @@ def _run_server(app, body, env, rec):
             server.get_out_object(ctx)
         else:
             ctx.out_error = ctx.in_error
-        server.get_out_string(ctx)
+        try:
+            server.get_out_string(ctx)
+        except Exception as e:
+            if ctx.out_error is not None:
+                raise
+            # what a transport built on ServerBase does when the response cannot be serialised (cf. WsgiApplication.handle_rpc):
+            # turn the failure into a fault and ask for the out string again
+            ctx.out_error = Fault('Server', 'Internal Error')
+            rec.extra['retried_after'] = repr(e)
+            server.get_out_string(ctx)
         rec.chunks = list(ctx.out_string)
         rec.in_error, rec.out_error = ctx.in_error, ctx.out_error
     except Exception as e:
